@@ -49,7 +49,29 @@ out.append('Produced by fresh sub-agents that saw only the property text and a s
            'the reference integrator as a tool). Each was confirmed by `tools/seed_eval.py`: patch applies, demo exits 0 on '
            'the clean tree and non-zero on the patched tree, pinned suite unchanged on the patched tree; then the quick '
            'check was run on the patched copy (`CHI_SRC`).\n')
-out.append('| seed | what it breaks / needs | quick check result | history |\n|---|---|---|---|')
+out.append('The column "at the last sweep" is the outcome of `tools/sweep_mutants.py` on the final harness and the '
+           'current /repo (`selftest/sweep_results.json`): flagged with n VIOLATION lines, or superseded (a later `fix:` '
+           'commit made the change harmless: its demonstration no longer fails), or no longer applying.\n')
+out.append('| seed | what it breaks / needs | quick check result when filed | history | at the last sweep |\n|---|---|---|---|---|')
+sweep = {}
+sp = os.path.join(here, 'selftest', 'sweep_results.json')
+if os.path.exists(sp):
+    sweep = json.load(open(sp)).get('results', {})
+
+
+def sweep_cell(key):
+    r = sweep.get(key)
+    if not r:
+        return ''
+    if not r.get('applies'):
+        return 'no longer applies'
+    if r.get('expected') == 'superseded':
+        return 'superseded'
+    if r.get('expected') == 'green':
+        return 'green (as expected)' if not r.get('flagged') else 'FLAGGED (unexpected)'
+    return ('flagged (%d)' % r.get('violations', 0)) if r.get('flagged') else 'NOT FLAGGED'
+
+
 sd = os.path.join(here, 'seeded')
 for d in sorted(os.listdir(sd)):
     mp = os.path.join(sd, d, 'meta.json')
@@ -60,7 +82,8 @@ for d in sorted(os.listdir(sd)):
     res = '; '.join('%s: %s' % (k, 'VIOLATION' if v.get('exit') == 1 else 'exit %s' % v.get('exit')) for k, v in chk.items())
     wb = str(m.get('what_breaks', ''))[:260].replace('|', '/').replace('\n', ' ')
     nd = str(m.get('needs_to_manifest', ''))[:200].replace('|', '/').replace('\n', ' ')
-    out.append('| %s | %s — needs: %s | %s | %s |' % (d, wb, nd, res, str(m.get('history', ''))[:420].replace('|', '/')))
+    out.append('| %s | %s — needs: %s | %s | %s | %s |' % (d, wb, nd, res, str(m.get('history', ''))[:420].replace('|', '/'),
+                                                         sweep_cell('seeded/%s/patch.diff' % d)))
 out.append('\n### E.4 Self-test mutants and rewrites kept under `selftest/`\n')
 names = sorted(n for n in os.listdir(os.path.join(here, 'selftest')) if n.endswith('.diff'))
 bypid = {}
@@ -68,7 +91,8 @@ for n in names:
     m = re.match(r'(?:revert_[0-9a-f]+_)?(C\d\d)', n)
     bypid.setdefault(m.group(1) if m else 'other', []).append(n[:-5])
 for pid in sorted(bypid):
-    out.append('* **%s**: %s' % (pid, ', '.join('`%s`' % x for x in bypid[pid])))
+    out.append('* **%s**: %s' % (pid, ', '.join('`%s`%s' % (x, (' — ' + sweep_cell('selftest/%s.diff' % x)) if sweep_cell('selftest/%s.diff' % x) else '')
+                                               for x in bypid[pid])))
 out.append('\nMutants (every one keeps the pinned suite green and is flagged by its property\'s quick check with a concrete '
            'failing input) and behaviour-preserving rewrites (`*rewrite*`, `*harmless*`, `REWRITE_*`: must stay green). '
            'Run one with `tools/mutant_check.sh selftest/<name>.diff <ID>`.\n')
